@@ -475,7 +475,7 @@ func runC04(r *h.Run) {
 	p.u85k, p.shiftScafK = 2, 1 // the scan oracle costs about 10x a lookup oracle per trie
 	p.shortQuick = []int{2}
 	if r.Tier == "quick" {
-		keep := map[string]bool{"tailsweep": true, "lift3": true, "bigroot-in": true, "bigroot-mid": true, "big2-in": true, "big2-under": true, "short2": true, "short2-mixed": true, "shift3": true, "shift30": true, "bigpair0": true, "bigpair1": true, "bigpair2": true, "bigpair3": true, "bignib": true, "bigalias": true}
+		keep := map[string]bool{"tailsweep": true, "sweep": true, "stepsweep": true, "lift3": true, "bigroot-in": true, "bigroot-mid": true, "big2-in": true, "big2-under": true, "short2": true, "short2-mixed": true, "shift3": true, "shift30": true, "bigpair0": true, "bigpair1": true, "bigpair2": true, "bigpair3": true, "bignib": true, "bigalias": true}
 		p.scaffoldFilter = func(n string) bool { return keep[n] }
 	}
 	r.Rule = "all 16 option combinations + no-Opt form over the key/value space of C03 (id: K(U21,3) quick / K(U21,5) thorough; scaffolds over K(U21,2); K(U85,2), 130 shift offsets over K(U21,1) and large families in thorough); complete tries: NewIter as a state machine from every start of Q x both inclusivities x withValue (next() until nil, then 3 more calls), ScanFrom likewise, callback returning false after every j = 0..n from every start of the neighbourhood set E, ScanFromTo over E x E (thorough: E x Q) x 4 inclusivity combinations, and every interleaving of the next() calls of two iterators with result lists <= 3; encoders I32 everywhere, String16 and VarEnc (variable / zero width) on small sets, and no values; incomplete tries: ScanFrom, ScanFromTo and NewIter must panic before yielding anything (empty incomplete trie: panic or empty scan). Oracle: the slice of the sorted retained list selected by the bounds with Encode(v) bytes; scans are reads: the instance marshals to the same bytes after all scans as before and still finds every retained key"
